@@ -27,7 +27,7 @@ TraceInit ==
     /\ script = Traces[tid].prog.script
     /\ cur = None /\ pos = 0 /\ upcalled = FALSE
     /\ stack = <<>> /\ registered = <<>> /\ ran = <<>> /\ seen = <<>> /\ raised = <<>>
-    /\ setupOk = FALSE /\ force = FALSE
+    /\ setupOk = FALSE /\ force = Traces[tid].prog.preforce /\ force0 = force
     /\ details = <<>> /\ tbNext = 0 /\ added = {} /\ hcalls = 0
     /\ attrs = [a \in Attrs |-> InitAttr(a)]
     /\ rlog = <<>> /\ outcomeHcalls = 0 /\ propagated = None
